@@ -13,6 +13,10 @@ def run(tier, seed):
         {"prog": "page", "strategy": "random", "runs": (100, 1500), "args": ["--snap", "3", "--size", "60000", "65536", "--spurious", "1"]},
         {"prog": "page", "strategy": "random", "runs": (100, 1500), "args": ["--snap", "3", "--size", "100", "128", "--spurious", "1"]},
         {"prog": "exit", "strategy": "random", "runs": (100, 1500), "args": ["--spurious", "1"]},
+        # blocks of exited threads freed by a thread that adopts their segment in the same call (reclaim on free): the block goes back exactly once
+        {"prog": "exit", "strategy": "random", "runs": (100, 1500), "args": ["--rate", "3"], "env": {"MIMALLOC_ABANDONED_RECLAIM_ON_FREE": "1"}},
+        {"prog": "exit", "strategy": "pct", "runs": (60, 800), "args": [], "env": {"MIMALLOC_ABANDONED_RECLAIM_ON_FREE": "1"}},
+        {"prog": "exit", "strategy": "random", "runs": (60, 800), "args": ["--size", "40", "200"], "env": {"MIMALLOC_ABANDONED_RECLAIM_ON_FREE": "1"}},
         # a remote thread that has just set DELAYED_FREEING is not scheduled for the next 6 yields of the others (owner exit / heap delete must wait for it)
         {"prog": "exit", "strategy": "random", "runs": (80, 1000), "args": ["--park", "6", "--rate", "3"]},
         {"prog": "page-delete", "strategy": "random", "runs": (80, 1000), "args": ["--snap", "3", "--park", "6", "--rate", "3"]},
